@@ -21,7 +21,10 @@ def parallel_regions(prog, fn):
             if isinstance(body, dict) and body.get("k") == "ForStmt" and "for" in n["omp"]:
                 init = body.get("init")
                 if isinstance(init, dict) and init.get("k") == "DeclStmt" and init.get("decls"):
-                    own = ("counter", init["decls"][0]["did"])
+                    d0 = init["decls"][0]
+                    # an index (own element = list[i]) or a random-access iterator (own element = *it): OpenMP gives every
+                    # thread its own disjoint sub-range of either
+                    own = ("iterator", d0["did"]) if "iterator" in (d0.get("t") or "") else ("counter", d0["did"])
                 body_inner = body["body"]
             else:
                 body_inner = body
@@ -87,7 +90,7 @@ class RegionAnalysis:
         k = e.get("k")
         if k == "DeclRefExpr":
             did = e["ref"]["did"]
-            if own[0] == "lambda-param" and did == own[1]:
+            if own[0] in ("lambda-param", "iterator") and did == own[1]:
                 return True
             ent = self.E.env(fn).get(did)
             if ent and ent[0] in ("local", "binding") and isinstance(ent[1], dict) and did in inside:
@@ -143,7 +146,7 @@ class RegionAnalysis:
                 for v in cl.get("vars", []):
                     if "did" in v:
                         private.add(v["did"])
-        if reg["own"] and reg["own"][0] == "counter":
+        if reg["own"] and reg["own"][0] in ("counter", "iterator"):
             private.add(reg["own"][1])
         own = reg["own"]
 
